@@ -45,7 +45,25 @@ def oracle_step(args):
                     if p.startswith("not Hermitian") or p.startswith("trace")]
         problems += [p for p in _valid_state(t.rho, pure0=1e-5 if pure else None, tol=1e-6)
                      if not (p.startswith("not Hermitian") or p.startswith("trace"))]
-    return not problems, {"rho": t.rho, "problems": problems}, {"problems": []}, "; ".join(problems) or "ok"
+    obs = {"rho": t.rho, "problems": problems}
+    if problems and args["integ"] == "linear-rk4" and not any(p.startswith("not Hermitian") or p.startswith("trace") for p in problems):
+        # positivity / purity off by more than 1e-6 after ONE linear-rk4 step (thorough seed 86: smallest eigenvalue -2.6e-6, six states,
+        # long step): is it the truncation error of the non-unitary RK4 scheme - the listed finding - and nothing else? Then it falls
+        # at fourth order when the electronic sub-step is refined
+        def defect(r):
+            ev = np.linalg.eigvalsh(0.5 * (r + r.conj().T))
+            d = max(0.0, -float(ev.min()), float(ev.max()) - 1.0)
+            return max(d, abs(float(np.real(np.trace(r @ r))) - 1.0)) if pure else d
+        d0 = defect(t.rho)
+        e0_ = float(getattr(t, "max_electronic_dt", 0.1))
+        for k in (4.0, 16.0):
+            t2 = ec.make_traj(c, args["integ"], max_electronic_dt=e0_ / k)
+            a_, b_ = ec.elecs(c)
+            t2.propagate_electronics(a_, b_, c["dt"])
+            if np.all(np.isfinite(t2.rho)) and defect(t2.rho) <= max(1e-9, d0 / 16.0):
+                obs["only_rk4_truncation"] = True
+                break
+    return not problems, obs, {"problems": []}, "; ".join(problems) or "ok"
 
 
 @safe_oracle
@@ -336,7 +354,8 @@ def run(ctx):
             continue
         ok, obs, req, text = oracle_step({"case": c, "integ": integ})
         if not ok:
-            ctx.oracle_fail("invalid-state-after-step:" + integ, "step", {"case": c, "integ": integ}, obs, req, text)
+            ctx.oracle_fail("rk4-not-unitary" if obs.get("only_rk4_truncation") else "invalid-state-after-step:" + integ, "step",
+                            {"case": c, "integ": integ}, obs, req, text)
 
     # the Lean counterexample to purity under linear-rk4, replayed on the implementation and on the model driver
     ok, obs, req, text = oracle_rk4_witness({})
